@@ -614,7 +614,7 @@ func c07CheckOutcome(t *rapid.T, c *c07Case, out *c07Outcome) (completed int) {
 func c07Property(st *verifkit.Stats, n, dishonest int) func(t *rapid.T) {
 	return func(t *rapid.T) {
 		c := c07Generate(t, n, dishonest)
-		budget := 6 * time.Minute
+		budget := 4 * time.Minute
 		out, err := c07Run(c, budget)
 		if err != nil {
 			t.Fatalf("harness: %v", err)
